@@ -470,6 +470,17 @@ impl<'a, 'b> Gen<'a, 'b> {
             }
             5 => Stmt::QubitDecl { size: if self.src.bool() { Some(self.expr_in(2, ECtx::Designator)) } else { None }, name: self.pick(QUBITS).to_string() },
             6 => Stmt::OldDecl { qreg: self.src.bool(), name: self.pick(QUBITS).to_string(), size: self.int_lit() },
+            7 if self.src.chance(1, 4) => {
+                let base = match self.src.below(4) {
+                    0 => Ty::Int(Some(Box::new(self.int_lit()))),
+                    1 => Ty::Float(None),
+                    2 => Ty::Complex(Some(Some(Box::new(self.int_lit())))),
+                    _ => Ty::UInt(None),
+                };
+                let nd = 1 + self.src.below(3);
+                let dims = (0..nd).map(|_| self.int_lit()).collect();
+                Stmt::IoArrayDecl { input: self.src.bool(), base, dims, name: self.pick(VARS).to_string() }
+            }
             7 => Stmt::IoDecl { input: self.src.bool(), ty: self.scalar_ty(), name: self.pick(VARS).to_string() },
             8 => {
                 let base = match self.src.below(4) {
